@@ -18,9 +18,9 @@ def defs_text():
     out.append(block('script/interpreter.h', r'^enum : uint32_t \{'))
     out.append(block('script/interpreter.h', r'^enum class SigVersion'))
     out.append('#include "step_env_mid.h"\n')
-    out.append(rewrite(block('script/interpreter.h', r'^struct ScriptExecutionData'), ENV_RULES))
+    out.append(r_nsdmi(rewrite(block('script/interpreter.h', r'^struct ScriptExecutionData'), ENV_RULES), 'ScriptExecutionData', 4))
     out.append('#include "step_env_checker.h"\n')
-    out.append(block('debugger/see.h', r'^class ConditionStack'))
+    out.append(r_nsdmi(block('debugger/see.h', r'^class ConditionStack'), 'ConditionStack', 2))
     out.append(block('debugger/see.h', r'^struct ScriptExecutionEnvironment'))
     out.append(block('debugger/interpreter.h', r'^inline bool set_success'))
     out.append(block('debugger/interpreter.h', r'^inline bool set_error'))
@@ -85,6 +85,18 @@ def build(with_extended=False, with_checksig=False):
         t += 'bool StepExtended(ScriptExecutionEnvironment& env, CScript::const_iterator& pc, CScript* local_script) { __CPROVER_assert(0, "verif-limit: StepExtended is outside this unit"); return false; }\n'
     if not with_checksig:
         t += '#include "step_env_nosig.h"\n'
+    else:
+        t += block('script/interpreter.h', r'^enum$', open_at_bol=True)   # SIGHASH_* constants
+        t += '#include "step_env_sig.h"\n'
+        sig = between('script/interpreter.cpp', r'^bool static IsCompressedOrUncompressedPubKey\(', r'^int FindAndDelete\(CScript& script, const CScript& b\)', include_end=False)
+        sig += between('script/interpreter.cpp', r'^static bool EvalChecksigPreTapscript\(', r'^// debugger/interpreter\.cpp', include_end=False)
+        # R-LOG: the two diagnostic fprintf statements format the mock key set through a class-template Join<>: dropped
+        sig = rewrite(sig, [(r'fprintf\(stderr, "note: pubkey not found in pretend set: %s not in \(%s\)\\n", pub_str\.c_str\(\), Join<[^;]*;', '/* diagnostic fprintf dropped (R-LOG) */;', 2),
+                            (r'fprintf\(stderr, "note: pretend signature mismatch: got %s=%s, expected %s=%s\\n",[^;]*;', '/* diagnostic fprintf dropped (R-LOG) */;', 1)])
+        # R-STATICORDER: `bool static f(` -> `static bool f(` (CBMC's parser wants the storage class first)
+        sig = rewrite(sig, [(r'^bool static ', 'static bool ', '+')])
+        sig = r_auto(sig, struct_fields(t, 'ScriptExecutionEnvironment'), 'env', None)
+        t += sig
     t += body + env_ctor()
     t = common_rules(t)
     t = r_throw(t, THROW_TABLE)
